@@ -433,7 +433,48 @@ def unit_poly_binop(eng, opname, shape):
         want = eng.I["p"] + eng.I["q"] if opname == "add" else eng.I["p"] - eng.I["q"]
         eng.prove("view-preserved:V(p%sq)==V(p)%sV(q)-for-every-valuation" % (("+", "+") if opname == "add" else ("-", "-")), poly_value(eng, o[1]) == want)
         rep_inv(eng, o[1])
-    return verify(eng, name, run, post, func="deferred.LinearPolynomial.__add__")
+    r = verify(eng, name, run, post, func="deferred.LinearPolynomial.__add__")
+    for ob in r["obligations"]:
+        ob["cfg"] = dict(kind="poly-binop", opname=opname, shape=[list(shape[0]), list(shape[1])])
+    return r
+
+
+def replay_poly_binop(cfg, w, tree):
+    """p (+|-) q on the real deferred.py with the witness's coefficients, constants and valuation (and a fixed second set), evaluated after the variables are settled"""
+    from pyvc import driver
+
+    def num(key, dflt):
+        v = str((w or {}).get(key, dflt))
+        return int(v) if v.lstrip("-").isdigit() else dflt
+    sets = []
+    for alt in (False, True):
+        pc = [num("p_c%d" % i, 2 + i) if not alt else 2 + i for i in range(len(cfg["shape"][0]))]
+        qc = [num("q_c%d" % i, 1 + i) if not alt else 1 + i for i in range(len(cfg["shape"][1]))]
+        sets.append(dict(pc=[c or 1 for c in pc], qc=[c or 1 for c in qc], pk=num("p_k", 3) if not alt else 3, qk=num("q_k", 5) if not alt else 5,
+                         sig=[num("sigma_x%d" % i, 7 + 2 * i) if not alt else 7 + 4 * i for i in range(3)]))
+    code = """
+from pdpy11.deferred import Promise, LinearPolynomial, wait
+opname, shape = %r, %r
+results = []
+for st in %r:
+    xs = [Promise[int]("x%%d" %% i) for i in range(3)]
+    p = LinearPolynomial[int]({xs[i]: c for i, c in zip(shape[0], st["pc"])}, st["pk"])
+    q = LinearPolynomial[int]({xs[i]: c for i, c in zip(shape[1], st["qc"])}, st["qk"])
+    pv = st["pk"] + sum(c * st["sig"][i] for i, c in zip(shape[0], st["pc"]))
+    qv = st["qk"] + sum(c * st["sig"][i] for i, c in zip(shape[1], st["qc"]))
+    r = p + q if opname == "add" else p - q
+    for v, s_ in zip(xs, st["sig"]):
+        v.settle(s_)
+    got = wait(r)
+    want = pv + qv if opname == "add" else pv - qv
+    results.append(dict(st=st, want=want, got=got, ok=(got == want)))
+bad = [r_ for r_ in results if not r_["ok"]]
+result = dict(failing=bad[:3], ok=not bad)
+""" % (cfg["opname"], cfg["shape"], sets)
+    jobs = [dict(kind="py", code=code)]
+    r = driver.native(jobs, tree)[0]
+    r = r.get("result") or r
+    return dict(jobs=jobs, observed=r, reproduced=isinstance(r, dict) and r.get("ok") is False)
 
 
 def unit_poly_scalar(eng, which, shape, settled_first=False):
